@@ -766,6 +766,29 @@ def m3_summary_colour_symmetric(ck):
         ck.req(not diff, "M3.summary_symmetric", short, body.where(),
                "the position summary treats the colours differently: exchanging White and Black changes what this function computes (%s)" % (
                    show(diff[0][2])[:160] if diff else ""), "%d path(s) compared with their colour-exchanged image" % len(paths))
+    # per-colour data assembled positionally (`ArrayMap::<Color, _>::new([a, b])` with computed a, b): slot 0 is White's and slot 1 Black's
+    # only by the enumeration order; the two elements must be each other's image under the colour exchange, otherwise the symmetric
+    # treatment of the colours is not established (raw index ranges such as counts[..8] / counts[8..14] cannot be compared)
+    for n in scope:
+        body = prog.body(n)
+        tb2 = TermBuilder(prog, body)
+        for bb, t in live_calls(body):
+            cn = callee_name(t)
+            if not (cn.startswith("weechess_core::utils::ArrayMap") and cn.split("::")[-1] in ("new", "from")):
+                continue
+            dty = body.local_ty(t["dest"]["l"]) if not t["dest"]["p"] else ""
+            if "ArrayMap<weechess_core::color::Color" not in dty:
+                continue
+            a = tb2.operand(t["args"][0]) if t["args"] else ("none",)
+            if a[0] == "agg" and a[1] == "array" and len(a[2]) == len(colour_names):
+                elems = list(a[2])
+                if all(e[0] == "const" for e in elems):
+                    continue
+                ok = len(elems) == 2 and _swap_norm(elems[0], colour_names, True) == _swap_norm(elems[1], colour_names, False) and \
+                    any(x[0] == "colour" for x in walk(_swap_norm(elems[0], colour_names, False)) if isinstance(x, tuple) and x)
+                ck.req(ok, "M3.positional", n.split("::")[-1] if "{closure" in n else "StateVariation::from", body.where(t.get("line")),
+                       "per-colour data is assembled positionally from two computed values that are not each other's image under the colour exchange "
+                       "(%s / %s): that both colours are counted alike is not established" % (show(elems[0])[:70], show(elems[1])[:70]))
     ck.extra["M3_scope"] = [n.split("::")[-1] for n in scope]
     ck.extra["M3_functions_naming_a_colour"] = n_named
 
